@@ -692,7 +692,7 @@ LEAN_EXTRA_TARGETS = ("QGen.C18",)
 
 
 PARTIAL = [
-    {"theorem": "exp_tp / exp_series_tp", "missing": "trace preservation of exp(L) is proved (Mathlib NormedSpace.exp and every partial sum); complete positivity of exp(L) for PSD K (Lindblad's theorem) is not formalised - to_gate's CP is checked per run on the implementation"},
+    {"theorem": "exp_tp / exp_series_tp / cp_iff_K_psd", "missing": "trace preservation of exp(L) is proved (Mathlib NormedSpace.exp and every partial sum); the jump part of the generator is CP iff K is PSD (Choi = V K V^H, V^H V = 1) is proved; complete positivity of exp(tL) itself (Lindblad's theorem) is not formalised - to_gate's CP is checked per run on the implementation"},
     {"theorem": "parts_sum", "missing": "proved for generators of the form rebuild(H,J,K) (Hermitian H, J; any K); surjectivity of rebuild onto Hermiticity-preserving generators is not formalised - the oracle evaluates the clause on generic real hs as well"},
     {"theorem": "gksl_action_hk / from_hk_row0", "missing": "stated for the exact complex matrix before _truncate_hs; the float truncation layer is modelled (truncateHs) and tied by the correspondence only; physical <=> (row0 = 0 and K PSD) is proved only as verdict wiring (isTp_iff) - 'K PSD <=> exp(tL) CP' is not proved"},
     {"theorem": "jump_operators_gksl_fails", "missing": "negation witness only (D13): the generator built from jump operators is not the GKSL one as coded"},
